@@ -84,6 +84,18 @@ pub fn ctx_reset() {
     c.events.clear();
     c.inject = None;
     c.answer_map = [None; N_STATIC_ANS];
+    INJECT_ARMED.store(false, std::sync::atomic::Ordering::SeqCst);
+}
+
+/// true while `Ctx::inject` is Some: lets the callbacks skip the context lock in the common case
+pub static INJECT_ARMED: std::sync::atomic::AtomicBool = std::sync::atomic::AtomicBool::new(false);
+pub static MATCHER_CALLS: std::sync::atomic::AtomicU64 = std::sync::atomic::AtomicU64::new(0);
+/// when false the callbacks do not log events (long stress runs)
+pub static LOG_EVENTS: std::sync::atomic::AtomicBool = std::sync::atomic::AtomicBool::new(true);
+
+pub fn arm_inject(inject: Option<Inject>) {
+    ctx().inject = inject;
+    INJECT_ARMED.store(inject.is_some(), std::sync::atomic::Ordering::SeqCst);
 }
 
 /// Payload of injected user panics; distinguishes them from unimock's own `String`/`&str` payloads.
@@ -91,14 +103,20 @@ pub fn ctx_reset() {
 pub struct UserPanic(pub &'static str);
 
 fn ev(e: Event) {
-    ctx().events.push(e);
+    if LOG_EVENTS.load(std::sync::atomic::Ordering::Relaxed) {
+        ctx().events.push(e);
+    }
 }
 
 fn fault(kind: Inject, tag: &'static str) {
+    if !INJECT_ARMED.load(std::sync::atomic::Ordering::SeqCst) {
+        return;
+    }
     let fire = {
         let mut c = ctx();
         if c.inject == Some(kind) {
             c.inject = None;
+            INJECT_ARMED.store(false, std::sync::atomic::Ordering::SeqCst);
             true
         } else {
             false
@@ -110,13 +128,8 @@ fn fault(kind: Inject, tag: &'static str) {
 }
 
 pub fn matcher_common(uid: usize, mask: u16, method: MethodId, args: &[u8], diag: bool) -> bool {
-    {
-        let mut c = ctx();
-        c.matcher_calls += 1;
-        if diag {
-            c.matcher_calls_diag += 1;
-        }
-    }
+    let _ = diag;
+    MATCHER_CALLS.fetch_add(1, std::sync::atomic::Ordering::Relaxed);
     fault(Inject::Matcher(uid), "matcher");
     mask & (1 << method.arg_code(args)) != 0
 }
